@@ -10,6 +10,7 @@ package weshnet
 
 import (
 	"bytes"
+	"encoding/json"
 	"context"
 	crand "crypto/rand"
 	"fmt"
@@ -59,6 +60,9 @@ var vfEvKinds = map[protocoltypes.EventType]string{
 func vfGroupLogRun(t testing.TB, w *vfRWorld, sc vfScript) []map[string]any {
 	ctx := context.Background()
 	w.reps = map[string]*vfReplica{}
+	if wk, _ := sc.Cfg["world"].(string); wk == "contact" || wk == "multi" {
+		return vfGroupLogRun2(t, w, sc, wk)
+	}
 	a1 := w.AddDevice("a1", "")
 	a2 := w.AddDevice("a2", "a1")
 	g := a1.AccountGroup()
@@ -192,7 +196,8 @@ func vfGroupLogRun(t testing.TB, w *vfRWorld, sc vfScript) []map[string]any {
 			}
 			gj[fmt.Sprintf("g%d", i+1)] = v
 		}
-		return map[string]any{"set": nameSet(d), "sw": sw, "en": en, "seed": seed, "cs": cs, "gj": gj}
+		view, _ := json.Marshal([]any{sw, seed, cs, gj})
+		return map[string]any{"set": nameSet(d), "sw": sw, "en": en, "seed": seed, "cs": cs, "gj": gj, "view": string(view)}
 	}
 	out := []map[string]any{{"ev": "reset", "id": sc.ID}}
 	for i, st := range sc.Steps {
@@ -321,6 +326,18 @@ func vfGroupLogRun(t testing.TB, w *vfRWorld, sc vfScript) []map[string]any {
 			}
 			want := vfPast(src, e.GetHash())
 			vfSyncTo(ctx, ms(st.D), []ipfslog.Entry{e}, want)
+		case "rdeliver":
+			e, ok := byName[st.X]
+			if !ok {
+				ev["skip"] = true
+				break
+			}
+			ev["x"] = st.X
+			if msgMode {
+				vfRawDeliver(ctx, mss(st.D), e)
+			} else {
+				vfRawDeliver(ctx, ms(st.D), e)
+			}
 		case "reopen":
 			reps[st.D].Reopen(g)
 		case "list":
